@@ -6,4 +6,7 @@ sys.path.insert(0, os.path.join(os.path.dirname(os.path.dirname(os.path.abspath(
 import common
 head = subprocess.run(["git", "-C", common.REPO, "rev-parse", "HEAD"], capture_output=True, text=True).stdout.strip()
 json.dump({"repo_head": head, "fingerprints": common.source_fingerprints()}, open(os.path.join(common.VERIF, "gen", "pins.json"), "w"), indent=1, sort_keys=True)
+sys.path.insert(0, os.path.join(common.VERIF, "gen"))
+import extract
+print("tables pinned:", extract.write_last_good(common.REPO))
 print("pinned", head)
